@@ -18,13 +18,15 @@ def mkReq (method uri host body tag : Bytes) (h : Hdrs) : Req :=
     hdrs := sortHdrs (h.filter (fun kv => kv.1 != hostKey))
     body := body, tag := tag }
 
-/-- one pass over the entries: a header entry applies to the entries after it -/
-def expReqs (f : Fmt) : Hdrs → List Item → List Req
+/-- one pass over the entries: a header entry applies to the entries after it; the provider's `headers` option
+`cfg` only fills in what the file did not define -/
+def expReqs (f : Fmt) (cfg : Hdrs) : Hdrs → List Item → List Req
   | _, [] => []
-  | h, .hdr k v :: r => expReqs f (hset h k v) r
+  | h, .hdr k v :: r => expReqs f cfg (hset h k v) r
   | h, .req u t b :: r =>
-    (if f = .uripost then mkReq postBytes u [] b t h else mkReq getBytes u [] [] t h) :: expReqs f h r
-  | h, .frame _ _ :: r => expReqs f h r
+    (if f = .uripost then mkReq postBytes u [] b t (mergeCfg h cfg) else mkReq getBytes u [] [] t (mergeCfg h cfg))
+      :: expReqs f cfg h r
+  | h, .frame _ _ :: r => expReqs f cfg h r
 
 /-- raw: the frames with their tags, in file order -/
 def expFrames : List Item → List RawAmmo
@@ -46,8 +48,8 @@ def targetsKnown (items : List Item) : Bool :=
   items.all fun it => match it with | .req u _ _ => uriOK u | _ => true
 
 /-- http/json: the request for one decoded entity -/
-def entityReq (host method uri tag body : Bytes) (headers : List (Bytes × Bytes)) : Req :=
-  mkReq method uri host body tag (headers.foldl (fun h kv => hset h kv.1 kv.2) [])
+def entityReq (cfg : Hdrs) (host method uri tag body : Bytes) (headers : List (Bytes × Bytes)) : Req :=
+  mkReq method uri host body tag (mergeCfg (headers.foldl (fun h kv => hset h kv.1 kv.2) []) cfg)
 
 /-- delivered sequence for `Limit = k`: the pass repeated -/
 def expected {α : Type} (pass : List α) (k : Nat) : List α := cycleTake pass k
@@ -74,7 +76,8 @@ def stopName : Stop → String
 /-- the observation (error class, request texts) of what a decoder model delivered;
 `none` when some URL is outside the class where the model knows `net/url` -/
 def modelObs (res : List Ammo × Stop) : Option (String × List String) :=
-  (allSome (res.1.map buildReq)).map fun reqs => (stopName res.2, reqs.map reqStr)
+  if res.2 = .err .urlclass then none
+  else (allSome (res.1.map buildReq)).map fun reqs => (stopName res.2, reqs.map reqStr)
 
 def obsLine (err : String) (reqs : List String) : String :=
   "err=" ++ err ++ " n=" ++ toString reqs.length ++ " reqs=" ++ ";".intercalate reqs
